@@ -399,7 +399,7 @@ Section Theorems.
 
     Lemma keep_going_err_at j : keep_going Op (err_at j) tol = true <-> (j = 0%nat \/ tol < change j).
     Proof.
-      destruct j as [|j]; cbn [err_at keep_going]; [split; auto|].
+      destruct j as [|j]; cbn [err_at keep_going ffinite R_ops orb]; [split; auto|].
       cbn [fltb R_ops]. rewrite Rltb_true. split; [auto|intros [H|H]; [discriminate|exact H]].
     Qed.
 
@@ -462,7 +462,7 @@ Section Theorems.
       rewrite Hres. cbn [r_iters r_qrq r_eighq]. unfold loop_rule. splits; try reflexivity; try lia; try exact I3.
       - intros j Hj1 Hj2. specialize (I4 j (Nat.le_0_l j) Hj2). apply keep_going_err_at in I4. destruct I4; [lia|assumption].
       - destruct I5 as [->|I5]; [left; reflexivity|right].
-        destruct k as [|k]; [cbn [err_at keep_going] in I5; discriminate|].
+        destruct k as [|k]; [cbn [err_at keep_going ffinite R_ops orb] in I5; discriminate|].
         split; [lia|]. cbn [err_at keep_going fltb R_ops] in I5.
         destruct (Rle_or_lt (change (S k)) tol) as [Hc|Hc]; [exact Hc|]. apply Rltb_true in Hc. congruence.
     Qed.
@@ -786,7 +786,7 @@ Section Examples.
     { apply (orth_not_zero rnd); [lia|]. apply morth_id. }
     assert (exists Qres, r_out (ex_run [2; 2]%nat F64 exA1 (Some (mid Op)) (QRCfg 1 0) false) = Ok [2; 2]%nat F64 Qres) as [Qres HQ].
     { rewrite (eigvecs_qr_path rnd) by lia. unfold orthogonal_iterations. rewrite Hz.
-      change (Z.to_nat 1) with 1%nat. cbn [orth_loop keep_going].
+      change (Z.to_nat 1) with 1%nat. cbn [orth_loop keep_going ffinite R_ops orb].
       rewrite (ex_qr_answers (mmul Op 2 exA1 (mid Op)) (or_introl exA1_id)). cbn [r_out]. eexists. reflexivity. }
     exists Qres. split; [exact HQ|].
     pose proof (mev_qr_loop_bounds rnd ex_eigh ex_qr ex_argsort 2 exA1 (mid Op) 0 F64 1 _ _ _ ltac:(lia) Hz HQ) as (Hb & _).
@@ -813,7 +813,7 @@ Section Examples.
     assert (forall k, ex_qr k 2 (mmul Op 2 exA2 exQ) = Answer exQ) as Hq by (apply ex_qr_answers; right; apply exA2_exQ).
     assert (exists Qres, r_out (ex_run [2; 2]%nat F64 exA2 (Some exQ) (QRCfg 3 0) false) = Ok [2; 2]%nat F64 Qres) as [Qres HQ].
     { rewrite (eigvecs_qr_path rnd) by lia. unfold orthogonal_iterations. rewrite Hz.
-      change (Z.to_nat 3) with 3%nat. cbn [orth_loop keep_going]. rewrite !Hq.
+      change (Z.to_nat 3) with 3%nat. cbn [orth_loop keep_going ffinite R_ops orb]. rewrite !Hq.
       repeat match goal with |- context [if ?b then _ else _] => destruct b end; cbn [r_out]; eexists; reflexivity. }
     destruct (mev_qr_fixes_eigenbasis rnd ex_eigh ex_qr ex_argsort ex_qr_contract ex_argsort_contract 2 exA2 exQ exL2 0 F64 3 _ _ _
                 ltac:(lia) exQ_orth exA2_eig HL Hasc HQ) as (s & Hs & Hm).
